@@ -491,7 +491,21 @@ class Cluster:
         if f is not None:
             a.fault = f.raw
             self.fault_log.append((self.loop._vtime, f.raw, a.seq))
-            if f.act == "error":
+            if f.act == "auth_topic" and a.key == 24:
+                # AddPartitionsToTxn naming an unauthorized topic: nothing is added; that topic's partitions get
+                # TOPIC_AUTHORIZATION_FAILED, all others OPERATION_NOT_ATTEMPTED (as the broker does)
+                bad = f.raw.get("topic", "t1")
+                if any(t["topic"] == bad for t in body["topics"]):
+                    ctx.reply({"throttle": 0, "results": [{"topic": t["topic"], "partitions": [
+                        {"partition": p, "error": 29 if t["topic"] == bad else 55} for p in t["partitions"]]}
+                        for t in body["topics"]]})
+                    self._post(a)
+                    return
+                f.fired = False          # this request does not name the topic: wait for one that does
+                f.seen = f.k
+                a.fault = None
+                self.fault_log.pop()
+            elif f.act == "error":
                 ctx.reply(self.error_reply(a.key, a.ver, body, f.code))
                 self._post(a)
                 return
